@@ -68,7 +68,7 @@ PROPERTIES = {
         "explanation": "JSON half only, as a bounded stand-in (tolist / json.dumps / json.loads are Python lists and text, outside the symbolic engine's reach); the netCDF half is not decidable in this sandbox (netCDF4 is not installed: dimarray.io.nc cannot be imported) and NO claim is made about it.",
     },
     "C05": {
-        "contracts": [wellformed.Construct, wellformed.Helpers, wellformed.AxesSetter, wellformed.Rename, wellformed.AxisCache, wellformed.NestedDict, wellformed.MultiAxisCache, wellformed.GroupedAxisLikeFresh] +
+        "contracts": [wellformed.Construct, wellformed.Helpers, wellformed.AxesSetter, wellformed.Rename, wellformed.AxisCache, wellformed.NestedDict, wellformed.MultiAxisCache, wellformed.GroupedAxisLikeFresh, wellformed.HistoryLikeFresh] +
                      [(c, r"outer-nosort") if c.__name__ == "AlignWF" else c for c in wellformed.WF_CONTRACTS],
         "level": "proof",
         "min_obligations": 1000,
